@@ -60,6 +60,8 @@ def run(prog, chk):
     chk.obs = [o for o in chk.obs if o["key"] not in ("A11.sink/events::<impl std::convert::From<events::OutputEvent> for quick_xml::events::Event<'a>>::from:from_escaped:comment",)]
     from props import C17
     C17.depth_pairing(prog, chk)
+    from props import strops
+    strops.check_for(prog, chk, "C04")  # A14.str-ops: how this property's strings are cut up is a reviewed, frozen inventory
 
 
 def filter_closed(prog, chk):
